@@ -29,7 +29,8 @@ ASSUMPTIONS = ['the corpus part is a finite enumeration (corpus_callables in the
 
 # ------------------------------------------------------------------ (a) adversarial constructs
 
-_CALLEE = 'def callee(x, y=2, *, z=3):\n    return x\n'
+_CALLEE = ('import functools\ndef callee(x, y=2, *, z=3):\n    return x\n'
+           'def other_callee(*, zz_required):\n    return None\n')
 
 # (name, body lines) — bodies of `def f(*args, **kwargs)` / `def f(a, b=1, *args, **kwargs)`; SITE is replaced by a
 # forwarding call or by a constant
@@ -76,6 +77,17 @@ BODIES = [
     ('chained-comparison-boolop', 'ok = 0 <= len(args) < 5 and not kwargs or True\nreturn SITE'),
     ('augmented-subscript', 'table = {}\ntable.setdefault("k", []).append(1)\ntable["k"] += [2]\nreturn SITE'),
     ('return-in-loop-else', 'for i in range(1):\n    continue\nelse:\n    return SITE'),
+    ('forwards-to-partial-of-stars', 'g = functools.partial(*args, **kwargs) if args else None\nreturn SITE'),
+    ('forwards-to-partial-empty', 'g = functools.partial(**kwargs) if False else None\nreturn SITE'),
+    ('too-many-fixed-positionals', 'if len(args) > 10 ** 9:\n    callee(1, 2, 3, 4, *args, **kwargs)\nreturn SITE'),
+    ('unknown-keyword-to-callee', 'if len(args) > 10 ** 9:\n    callee(*args, zz_unknown=1, **kwargs)\nreturn SITE'),
+    ('two-incompatible-callees', 'if len(args) > 10 ** 9:\n    return other_callee(*args, **kwargs)\nreturn SITE'),
+    ('column0-multiline-string', 'text = \'\'\'first\n\x00second at column 0\n\x00\'\'\'\nreturn SITE'),
+    ('call-of-call-result', 'def make():\n    return callee\nif len(args) > 10 ** 9:\n    return make()(*args, **kwargs)\nreturn SITE'),
+    ('call-of-subscript', 'handlers = {0: callee}\nif len(args) > 10 ** 9:\n    return handlers[0](*args, **kwargs)\nreturn SITE'),
+    ('forwards-to-class', 'class Target(object):\n    def __init__(self, x, y=1):\n        pass\nif len(args) > 10 ** 9:\n    return Target(*args, **kwargs)\nreturn SITE'),
+    ('forwards-to-builtin', 'if len(args) > 10 ** 9:\n    return dict(*args, **kwargs)\nreturn SITE'),
+    ('forwards-to-none', 'nothing = None\nif len(args) > 10 ** 9:\n    return nothing(*args, **kwargs)\nreturn SITE'),
 ]
 KINDS = ('def', 'async-def', 'generator', 'decorated', 'method', 'exec-no-source', 'lambda')
 
@@ -192,7 +204,7 @@ def _construct(body_idx, kind, with_site, with_params):
     site = 'callee(*args, **kwargs)' if with_site else '0'
     body = body.replace('SITE', site)
     deflist = 'a, b=1, *args, **kwargs' if with_params else '*args, **kwargs'
-    ind = lambda t, n=1: '\n'.join(('    ' * n + l if l else l) for l in t.split('\n'))
+    ind = lambda t, n=1: '\n'.join((l[1:] if l.startswith('\x00') else ('    ' * n + l if l else l)) for l in t.split('\n'))
     if kind == 'lambda':
         src = _CALLEE + 'f = lambda %s: %s\n' % (deflist, site)
         return _source_fn(src, 'f'), deflist
@@ -274,7 +286,7 @@ def h_constructs(ctx, cfg):
         ctx.case('construct ' + label, nontrivial=False)
         if second < len(BODIES):
             b2 = BODIES[second][1].replace('SITE', '0')
-            b2 = 'if len(args) > 10 ** 9:\n' + '\n'.join('    ' + l if l else l for l in b2.split('\n'))
+            b2 = 'if len(args) > 10 ** 9:\n' + '\n'.join(('\x00' + l[1:] if l.startswith('\x00') else ('    ' + l if l else l)) for l in b2.split('\n'))
             saved = BODIES[body_idx]
             BODIES[body_idx] = (saved[0], b2 + '\n' + saved[1])
             try:
@@ -418,7 +430,7 @@ def plan(tier):
     if tier == 'quick':
         return [
             dict(name='constructs-pairs', fn='h_constructs', depth=9, budget_s=300, cfg=dict(pairs=True),
-                 bounds='every single and every ordered pair of 43 statement constructs x 7 function kinds x with/without forwarding call x with/without own parameters; 44 special objects',
+                 bounds='every single and every ordered pair of 55 statement constructs x 7 function kinds x with/without forwarding call x with/without own parameters; 44 special objects',
                  min_nontrivial=300, must_reach=['returns-whenever-inspect-does', 'raises-the-same-exception-type',
                                                  'only-narrows-own-signature']),
             dict(name='corpus-quick', fn='h_corpus', depth=8, budget_s=300, cfg=dict(thorough=False),
@@ -430,7 +442,7 @@ def plan(tier):
         ]
     return [
         dict(name='constructs-pairs', fn='h_constructs', depth=10, budget_s=2400, cfg=dict(pairs=True),
-             bounds='every pair of the 43 statement constructs x 7 function kinds x site x parameters; 44 special objects', min_nontrivial=300),
+             bounds='every pair of the 55 statement constructs x 7 function kinds x site x parameters; 44 special objects', min_nontrivial=300),
         dict(name='corpus-thorough', fn='h_corpus', depth=10, budget_s=3000, cfg=dict(thorough=True),
              bounds='every callable reachable from ~120 importable modules (stdlib, packages installed in /venv, sigtools)', min_nontrivial=1000),
         dict(name='sphinx-hook', fn='h_sphinx', depth=4, budget_s=120, cfg=dict(), bounds='27 documentable names of the fixture module',
